@@ -126,6 +126,46 @@ pub fn polys(quick: bool) -> Vec<(Poly, bool)> {
         }
         v.push((p, touch));
     }
+    // two and three holes with DIFFERENT vertex counts (3..8), in every order, in shells with 4 and 6 vertices: the hole offsets handed to
+    // the triangulators depend on the sizes of all earlier rings
+    let g3r = rings(3, 8);
+    let mut shapes: Vec<Vec<IP>> = vec![];
+    for k in 3..=8usize {
+        let of_k: Vec<&Vec<IP>> = g3r.iter().filter(|r| r.len() == k).collect();
+        if of_k.is_empty() {
+            continue;
+        }
+        shapes.push(of_k[0].clone());
+        if !quick || k <= 4 {
+            shapes.push(of_k[of_k.len() / 2].clone());
+        }
+    }
+    let slots: [(i64, i64); 3] = [(1, 1), (4, 1), (7, 1)];
+    let shells2: Vec<Vec<IP>> = vec![vec![(0, 0), (10, 0), (10, 4), (0, 4)], vec![(0, 0), (10, 0), (11, 2), (10, 4), (0, 4), (-1, 2)]];
+    let place = |r: &Vec<IP>, s: (i64, i64)| -> Vec<IP> { r.iter().map(|p| (p.0 + s.0, p.1 + s.1)).collect() };
+    let ns = shapes.len();
+    let orders2: [(usize, usize); 6] = [(0, 1), (1, 0), (0, 2), (2, 0), (1, 2), (2, 1)];
+    let orders3: [[usize; 3]; 6] = [[0, 1, 2], [0, 2, 1], [1, 0, 2], [1, 2, 0], [2, 0, 1], [2, 1, 0]];
+    for (si, sh) in shells2.iter().enumerate() {
+        for a in 0..ns {
+            for b in 0..ns {
+                for (oi, o) in orders2.iter().enumerate() {
+                    if quick && (a + b + oi + si) % 2 == 1 {
+                        continue;
+                    }
+                    v.push((Poly { shell: sh.clone(), holes: vec![place(&shapes[a], slots[o.0]), place(&shapes[b], slots[o.1])] }, false));
+                }
+                for c in 0..ns {
+                    for (oi, o) in orders3.iter().enumerate() {
+                        if (a * 7 + b * 3 + c + oi + si) % (if quick { 11 } else { 2 }) != 0 {
+                            continue;
+                        }
+                        v.push((Poly { shell: sh.clone(), holes: vec![place(&shapes[a], slots[o[0]]), place(&shapes[b], slots[o[1]]), place(&shapes[c], slots[o[2]])] }, false));
+                    }
+                }
+            }
+        }
+    }
     v
 }
 
@@ -180,7 +220,7 @@ pub fn run(mut run: Run) -> i32 {
                     let mut bad = (a - want).abs() > 1e-6;
                     if !bad && off == 0.0 {
                         use geo::CoordinatePosition;
-                        for kx in -1..=11i64 {
+                        for kx in -3..=23i64 {
                             for ky in -1..=9i64 {
                                 let q = HP::new(kx as i128, ky as i128, 2);
                                 let c = Coord { x: kx as f64 / 2.0, y: ky as f64 / 2.0 };
@@ -202,14 +242,19 @@ pub fn run(mut run: Run) -> i32 {
         // stitch(earcut) has the same area and the same location on the half-step lattice
         if !touch {
             acc.evals += 1;
-            match guard(|| pg.earcut_triangles().stitch_triangulation()) {
+            // is the ear-cut triangulation conforming (no triangle edge passes through another triangle's vertex)? stitching works on identical edges only
+            let ear = guard(|| pg.earcut_triangles()).unwrap_or_default();
+            let its: Vec<[IP; 3]> = ear.iter().filter_map(|t| tri_ip(t, off)).collect();
+            let conforming = !its.iter().any(|t| (0..3).any(|i| its.iter().any(|u| u.iter().any(|&v| v != t[i] && v != t[(i + 1) % 3] && on_seg_i(t[i], t[(i + 1) % 3], v)))));
+            acc.count(if conforming { "ear-cut triangulations that are conforming" } else { "ear-cut triangulations with a T-junction (non-conforming)" }, 1);
+            match guard(|| ear.stitch_triangulation()) {
                 Ok(Ok(mp)) => {
                     let a = mp.unsigned_area();
                     let want = poly_area(p).f();
                     let mut bad = (a - want).abs() > 1e-6;
                     if !bad && off == 0.0 {
                         use geo::CoordinatePosition;
-                        for kx in -1..=9i64 {
+                        for kx in -3..=23i64 {
                             for ky in -1..=9i64 {
                                 let q = HP::new(kx as i128, ky as i128, 2);
                                 let c = Coord { x: kx as f64 / 2.0, y: ky as f64 / 2.0 };
@@ -228,7 +273,8 @@ pub fn run(mut run: Run) -> i32 {
                         }
                     }
                     if bad {
-                        acc.viol("stitch_triangulation(earcut) differs from the polygon (area or point location)".into(), idx, || json!({"polygon": format!("{:?}", pg), "stitched": format!("{:?}", mp)}));
+                        let kind = if conforming { "conforming ear-cut triangulation" } else { "ear-cut triangulation with a T-junction: a triangle edge passes through another triangle's vertex" };
+                        acc.viol(format!("stitch_triangulation(earcut) differs from the polygon (area or exterior) [{}]", kind), idx, || json!({"polygon": format!("{:?}", pg), "stitched": format!("{:?}", mp), "stitched_area": a, "polygon_area": want}));
                     }
                 }
                 other => acc.viol("stitch_triangulation failed/panicked".into(), idx, || json!({"polygon": format!("{:?}", pg), "result": format!("{:?}", other)})),
@@ -306,7 +352,7 @@ pub fn run(mut run: Run) -> i32 {
         // point location on the half-step lattice, one step outside the box
         let mono = MonotonicPolygons::from(pg.clone());
         let ag = AG::Polys(vec![p.clone()]);
-        for kx in -2..=9i64 {
+        for kx in -3..=23i64 {
             for ky in -2..=9i64 {
                 let q = HP::new(kx as i128, ky as i128, 2);
                 let c = Coord { x: kx as f64 / 2.0, y: ky as f64 / 2.0 };
@@ -360,5 +406,106 @@ pub fn run(mut run: Run) -> i32 {
             }
         }
     });
+    // MultiPolygon inputs: member A (optionally with a hole touching its shell at a vertex) x member B translated over a window, kept when the pair is a
+    // valid MultiPolygon (interiors disjoint, boundaries meeting at finitely many points): disjoint, interleaving in x, touching vertex-to-vertex,
+    // touching vertex-to-edge (T-junction). Constrained Delaunay of the MultiPolygon tiles the union; stitching it back gives the same area and the
+    // same exterior; the joint monotone subdivision locates points like the union.
+    {
+        let g4 = grid(4);
+        let sq: Vec<IP> = vec![(0, 0), (3, 0), (3, 3), (0, 3)];
+        let mut a_members: Vec<Poly> = vec![];
+        for r in rings(3, 5).into_iter().step_by(if quick { 9 } else { 2 }) {
+            a_members.push(Poly { shell: r, holes: vec![] });
+        }
+        // square shell with a triangular hole touching it at a vertex of the shell or in the middle of a side
+        for p in polys_with_hole(&[sq.clone()], &rings_over(&g4, 3)).into_iter().filter(|p| ring_contacts(&p.holes[0], &p.shell).map_or(false, |c| !c.is_empty())).step_by(if quick { 5 } else { 1 }) {
+            a_members.push(p);
+        }
+        let b_rings: Vec<Vec<IP>> = rings(3, 4).into_iter().step_by(if quick { 7 } else { 2 }).collect();
+        let shifts: Vec<IP> = (-3..=3).flat_map(|x| (-3..=3).map(move |y| (x, y))).collect();
+        let (na, nb, nsft) = (a_members.len(), b_rings.len(), shifts.len());
+        run.stage("multipolygon-pairs", na * nb * nsft, |idx, acc| {
+            let (a, br, sft) = (&a_members[idx / (nb * nsft)], &b_rings[(idx / nsft) % nb], shifts[idx % nsft]);
+            let b = Poly { shell: br.iter().map(|p| (p.0 + sft.0, p.1 + sft.1)).collect(), holes: vec![] };
+            if !polys_compatible(a, &b) {
+                acc.count("candidate pairs that are not a valid MultiPolygon (dropped)", 1);
+                return;
+            }
+            let ag = AG::Polys(vec![a.clone(), b.clone()]);
+            let mp = MultiPolygon(vec![poly(a), poly(&b)]);
+            // how the two members touch
+            let verts_a: Vec<IP> = a.shell.iter().chain(a.holes.iter().flatten()).cloned().collect();
+            let on_edge_interior = |v: IP, q: &Poly| std::iter::once(&q.shell).chain(q.holes.iter()).any(|r| !r.contains(&v) && (0..r.len()).any(|i| on_seg_i(r[i], r[(i + 1) % r.len()], v)));
+            let tj = b.shell.iter().any(|&v| on_edge_interior(v, a)) || verts_a.iter().any(|&v| on_edge_interior(v, &b)) || a.holes.iter().any(|h| h.iter().any(|&v| !a.shell.contains(&v) && (0..a.shell.len()).any(|i| on_seg_i(a.shell[i], a.shell[(i + 1) % a.shell.len()], v))));
+            let shared = b.shell.iter().filter(|v| verts_a.contains(v)).count();
+            let kind = if tj { "ring vertex in the interior of another ring's edge" } else if shared > 0 || !a.holes.is_empty() { "rings share a vertex" } else { "rings disjoint" };
+            acc.class(format!("multipolygon-pair holes{} {}", a.holes.len(), kind));
+            acc.sample(idx, || json!({"multipolygon": format!("{:?}", mp), "contact": kind}));
+            let want2 = area2(&a.shell).abs() - a.holes.iter().map(|h| area2(h).abs()).sum::<i64>() + area2(&b.shell).abs();
+            // constrained Delaunay of the MultiPolygon and its stitching
+            acc.evals += 2;
+            match guard(|| TriangulateDelaunay::constrained_triangulation(&mp, DelaunayTriangulationConfig::default())) {
+                Ok(Ok(tris)) => {
+                    let its: Option<Vec<[IP; 3]>> = tris.iter().map(|t| tri_ip(t, 0.0)).collect();
+                    match its {
+                        None => acc.viol(format!("constrained_triangulation(MultiPolygon) corner is not a vertex [{}]", kind), idx, || json!({"multipolygon": format!("{:?}", mp)})),
+                        Some(its) => {
+                            let got2: i64 = its.iter().map(|t| area2(&t[..]).abs()).sum();
+                            if got2 != want2 {
+                                acc.viol(format!("constrained_triangulation(MultiPolygon) triangle areas do not sum to the area [{}]", kind), idx, || json!({"multipolygon": format!("{:?}", mp), "2*area": got2, "expected": want2}));
+                            } else if let Some(d) = tiling_defect(&its, &ag.segs(), &|q: &HP| locate(&ag, q) == I) {
+                                acc.viol(format!("constrained_triangulation(MultiPolygon): {} [{}]", d, kind), idx, || json!({"multipolygon": format!("{:?}", mp), "triangles": format!("{:?}", tris)}));
+                            }
+                        }
+                    }
+                    match guard(|| tris.stitch_triangulation()) {
+                        Ok(Ok(st)) => {
+                            let a_st = st.unsigned_area();
+                            let mut bad = (a_st - want2 as f64 / 2.0).abs() > 1e-6;
+                            if !bad {
+                                use geo::CoordinatePosition;
+                                for kx in -8..=14i64 {
+                                    for ky in -8..=14i64 {
+                                        let q = HP::new(kx as i128, ky as i128, 2);
+                                        let c = Coord { x: kx as f64 / 2.0, y: ky as f64 / 2.0 };
+                                        if (locate(&ag, &q) == E) != (st.coordinate_position(&c) == geo::coordinate_position::CoordPos::Outside) {
+                                            bad = true;
+                                        }
+                                    }
+                                }
+                            }
+                            if bad {
+                                acc.viol(format!("stitch_triangulation(constrained Delaunay of a MultiPolygon) differs from the input (area or exterior) [{}]", kind), idx, || json!({"multipolygon": format!("{:?}", mp), "stitched": format!("{:?}", st), "area": a_st, "expected_area": want2 as f64 / 2.0}));
+                            }
+                        }
+                        other => acc.viol(format!("stitch_triangulation(constrained Delaunay of a MultiPolygon) failed/panicked [{}]", kind), idx, || json!({"multipolygon": format!("{:?}", mp), "result": format!("{:?}", other).chars().take(300).collect::<String>()})),
+                    }
+                }
+                other => acc.viol(format!("constrained_triangulation(MultiPolygon) failed/panicked [{}]", kind), idx, || json!({"multipolygon": format!("{:?}", mp), "result": format!("{:?}", other).chars().take(300).collect::<String>()})),
+            }
+            // joint monotone subdivision
+            acc.evals += 1;
+            match guard(|| MonotonicPolygons::from(mp.clone())) {
+                Err(e) => acc.viol(format!("monotone_subdivision panic ({})", kind), idx, || json!({"multipolygon": format!("{:?}", mp), "panic": e})),
+                Ok(mono) => {
+                    let total: f64 = mono.subdivisions().iter().map(|m| m.clone().into_polygon().unsigned_area()).sum();
+                    if (total - want2 as f64 / 2.0).abs() > 1e-9 {
+                        acc.viol(format!("monotone(MultiPolygon) areas do not sum [{}]", kind), idx, || json!({"multipolygon": format!("{:?}", mp), "sum": total, "expected": want2 as f64 / 2.0}));
+                        return;
+                    }
+                    for kx in -8..=14i64 {
+                        for ky in -8..=14i64 {
+                            let q = HP::new(kx as i128, ky as i128, 2);
+                            let c = Coord { x: kx as f64 / 2.0, y: ky as f64 / 2.0 };
+                            if mono.intersects(&c) != (locate(&ag, &q) != E) {
+                                acc.viol(format!("MonotonicPolygons(MultiPolygon)::intersects wrong [{}]", kind), idx, || json!({"multipolygon": format!("{:?}", mp), "query": format!("{:?}", c)}));
+                                return;
+                            }
+                        }
+                    }
+                }
+            }
+        });
+    }
     run.finish()
 }
